@@ -22,9 +22,11 @@ LEVEL_TEXT = ("Held on the executions observed: ~3.3k (quick) to ~190k (thorough
               "view. Sampling, not a proof for unexplored documents.")
 LEVEL_NOTE = ("Trusted: vf.refs.consensus (generator + view, self-tested against an independent reader and the standard "
               "library's base64), FakeTor/Link, the reply encoder. Entries follow dir-spec item order r, a*, s, w?, p?; "
-              "every relay carries at least one flag; v/pr/m items are not generated (Tor's control port does not write them).")
+              "~97 % of the entries carry at least one flag, the rest an 's' line without any flag (dir-spec: 's' SP Flags, "
+              "Flags a possibly empty series); v/pr/m items are not generated (Tor's control port does not write them).")
 RULE = ("a case = a pool of 3-40 relays and a sequence of 1-5 documents drawn from it (relays joining/leaving, nicknames "
-        "from a small pool so duplicates occur, flags / a-lines / w-line / p-line appearing, changing and disappearing), "
+        "from a small pool so duplicates occur, flags / a-lines / w-line / p-line appearing, changing and disappearing - "
+        "in about half of the cases including relays whose 's' line loses every flag / gets flags again), "
         "delivered as ns/all then NEWCONSENSUS under a chosen segmentation; ~5 % of the documents list no relay at all "
         "(empty ns/all in block and inline form, empty replacement document); after ~45 % of the documents identities the "
         "document does not list (relays that left, bridges, boundary ids; $hex, $hex~nick, $hex=nick) are looked up through "
@@ -33,7 +35,10 @@ RULE = ("a case = a pool of 3-40 relays and a sequence of 1-5 documents drawn fr
         "Non-trivial = at least one document was delivered and its relay view compared.")
 ASSUMPTIONS = [
     "documents are well-formed per dir-spec 3.4.1: item order r, a*, s, w?, p?; identities unique within a document",
-    "every relay has at least one flag (consensus entries are Running/Valid); nicknames differ by more than letter case",
+    "nicknames differ by more than letter case",
+    "an 's' line without any flag is written in dir-spec's literal form 's' SP (empty series); a current Tor consensus "
+    "gives every entry Running and Valid, so this is the limit case of 'flags disappearing' and carries its own class "
+    "+no-flags-now",
     "entry-guards, circuit-status and stream-status are empty; relay objects outside the documents arise only from the "
     "harness's own lookups of unlisted identities (router_from_id / CIRC LAUNCHED|EXTENDED paths)",
     "what router_from_id() returns for an identity no document lists is not judged, and TorState.routers (the lookup "
@@ -67,6 +72,8 @@ FLOORS = {
               "unlisted_identity_lookups": 600, "views_recompared_after_lookups": 350, "circ_events_with_paths": 150,
               "unlisted_entries_inspected": 500, "reused_relays_with_only_dirport_changed": 150,
               "reused_relays_with_only_orport_changed": 100, "reused_relays_with_only_ipv4_changed": 100,
+              "flagless_entries": 300, "reused_relays_that_lost_every_flag": 120,
+              "reused_guards_or_authorities_that_lost_every_flag": 50, "reused_flagless_relays_that_got_flags": 100,
               "reach:txtorcon.torstate:TorState._create_router": 9000,
               "reach:txtorcon.torstate:TorState._update_network_status": 400,
               "reach:txtorcon.torstate:TorState.router_from_id": 30000},
@@ -76,6 +83,8 @@ FLOORS = {
                  "unlisted_identity_lookups": 30000, "views_recompared_after_lookups": 18000, "circ_events_with_paths": 7000,
                  "unlisted_entries_inspected": 25000, "reused_relays_with_only_dirport_changed": 8000,
                  "reused_relays_with_only_orport_changed": 5000, "reused_relays_with_only_ipv4_changed": 5000,
+                 "flagless_entries": 15000, "reused_relays_that_lost_every_flag": 6000,
+                 "reused_guards_or_authorities_that_lost_every_flag": 2500, "reused_flagless_relays_that_got_flags": 5000,
                  "reach:txtorcon.torstate:TorState._create_router": 500000,
                  "reach:txtorcon.torstate:TorState._update_network_status": 25000},
 }
@@ -98,7 +107,9 @@ def gen_ipv6(rnd):
     return "[%s]:%d" % (host, rnd.choice([443, 9001, rnd.randint(1, 65535)]))
 
 
-def gen_flags(rnd, knobs):
+def gen_flags(rnd, knobs, allow_none=True):
+    if allow_none and rnd.random() < knobs.get("flagless", 0.0):
+        return []           # "s" line without any flag (dir-spec: Flags is a possibly empty series)
     fl = {"Running", "Valid"} if rnd.random() < 0.95 else {rnd.choice(["Running", "Valid"])}
     for f in ("Exit", "Fast", "HSDir", "Stable", "V2Dir"):
         if rnd.random() < 0.45:
@@ -149,6 +160,7 @@ def gen_case(rnd):
         "ipv6": rnd.random() < 0.7, "no_w": rnd.choice([0.0, 0.0, 0.15, 0.5]),
         "p_without_w": rnd.random() < 0.15, "churn": rnd.choice([0.1, 0.3, 0.6]),
         "present": rnd.choice([0.5, 0.75, 0.9, 1.0]), "rename": rnd.choice([0.0, 0.05, 0.2]),
+        "flagless": rnd.choice([0.0, 0.0, 0.03, 0.1]),
     }
     ids = set()
     while len(ids) < npool:
@@ -163,7 +175,13 @@ def gen_case(rnd):
                     fl = set(r["flags"])
                     for f in rnd.sample(TOGGLE, rnd.randint(1, 2)):
                         fl.symmetric_difference_update({f})
-                    r["flags"] = sorted(fl) or ["Running"]
+                    r["flags"] = sorted(fl) or ([] if knobs["flagless"] else ["Running"])
+                # every flag disappears at once (the relay stays listed) / a flagless relay gets flags again
+                if r["flags"]:
+                    if rnd.random() < knobs["flagless"]:
+                        r["flags"] = []
+                elif rnd.random() < 0.5:
+                    r["flags"] = gen_flags(rnd, knobs, allow_none=False)
                 if rnd.random() < knobs["rename"]:
                     r["nick"] = rnd.choice(knobs["nicks"])
                 if rnd.random() < 0.05:
@@ -256,6 +274,11 @@ def relay_class(docs, k, ident, what):
         if any(r.get("bw") is not None for r in before):
             cls += "+w-line-earlier"
         cls += "+w-line-now" if now.get("bw") is not None else "+no-w-line-now"
+    elif what == "flags" and not now.get("flags"):
+        # only the limit case gets its own class; entries with flags keep the plain one
+        if any(r.get("flags") for r in before):
+            cls += "+flags-earlier"
+        cls += "+no-flags-now"
     return cls
 
 
@@ -403,7 +426,9 @@ def judge(st, docs, k, prev, rec, V, flags, asked=(), phase=None):
         min(len(want["authorities"]), 3)))
     flags["compared"] = True
     for r in docs[k]:
-        rec.seen("entry_shapes", "r" + " a" * len(r.get("a", ())) + " s"
+        if phase is None and not r["flags"]:
+            rec.count("flagless_entries")
+        rec.seen("entry_shapes", "r" + " a" * len(r.get("a", ())) + (" s" if r["flags"] else " s(no-flag)")
                  + (" w" + "+kw" * len(r.get("wx", ())) if r.get("bw") is not None else "")
                  + (" p" if r.get("p") is not None else ""))
     if k:
@@ -424,6 +449,14 @@ def judge(st, docs, k, prev, rec, V, flags, asked=(), phase=None):
                         if only == [what]:
                             rec.count("reused_relays_with_only_%s_changed" % what)
                     rec.seen("relay_changes", what + (":dropped" if not b and b != 0 else (":added" if not a and a != 0 else ":changed")))
+            if phase is None and o["flags"] and not r["flags"]:
+                rec.count("reused_relays_that_lost_every_flag")
+                if {"Guard", "Authority"} & set(o["flags"]):
+                    rec.count("reused_guards_or_authorities_that_lost_every_flag")
+                rec.seen("relay_changes", "flags:all-dropped")
+            elif phase is None and r["flags"] and not o["flags"]:
+                rec.count("reused_flagless_relays_that_got_flags")
+                rec.seen("relay_changes", "flags:first-added")
             for f in set(o["flags"]) ^ set(r["flags"]):
                 if f in ("Guard", "Authority"):
                     rec.seen("relay_changes", f + (":gained" if f in r["flags"] else ":lost"))
@@ -497,7 +530,7 @@ def judge(st, docs, k, prev, rec, V, flags, asked=(), phase=None):
             cmp("ipv6-mismatch", list(r.ip_v6), w["ipv6"], cls=relay_class(docs, k, ident, "ipv6"))
             cmp("orport-mismatch", str(r.or_port), str(w["orport"]))
             cmp("dirport-mismatch", str(r.dir_port), str(w["dirport"]))
-            cmp("flags-mismatch", sorted(r.flags), w["flags"])
+            cmp("flags-mismatch", sorted(r.flags), w["flags"], cls=relay_class(docs, k, ident, "flags"))
             if w["bandwidth"] is None:
                 cmp("bandwidth-mismatch", r.bandwidth, 0, cls=relay_class(docs, k, ident, "bandwidth"),
                     ok=lambda g: g is None or g == 0)
